@@ -39,7 +39,8 @@ CONSTANTS Cap,            \* size of the window above the tip
 VARIABLES h, eff, quiet
 avars == <<h, eff, quiet>>
 
-Effective(i, hr) == hr < i /\ i <= hr + Cap
+EffectiveC(i, hr, c) == hr < i /\ i <= hr + c
+Effective(i, hr)     == EffectiveC(i, hr, Cap)
 
 \* the highest n >= hh such that every block hh+1 .. n was given (blocks <= hh are on the ledger)
 MaxContig(hh, E) ==
